@@ -5,9 +5,9 @@ import B6.Spec.Cursor
 Driver for C08 (posting lists).  Ops written by harness/cmd/c08:
 
   `table [names]`             answer `[FromEncoded]`             (`""` is written `_`)
-  `fill <token> [t:ns:v …]`   answer `<hex of PostingList.Marshal>` | `panic`
-  `iter`                      answer `ok`
-  `next`                      answer `true t:ns:v` | `false` | `panic`
+  `fill <tokenhex> [t:ns:v …]` answer `<hex of PostingList.Marshal>` | `panic`   (token bytes as hex, `-` = empty)
+  `iter`                      answer `ok` (`panic`/`hang` = `NewIterator` failed on the header: propfail `roundtrip`)
+  `next`                      answer `true t:ns:v` | `false` | `panic` | `hang`
   `adv t:ns:v`                answer `true t:ns:v` | `false` | `panic`
 
 Every answer is recomputed with `B6.Model.Posting` (the model the theorems of `B6.Props.C08` are about):
@@ -178,7 +178,10 @@ def step (st : St) (op impl : String) : St × Verdict :=
         | some ids =>
           let inDomain := st.tblOK && ids.all validId && sortedChain ids &&
             keys.all (fun k => decide (k.type < 8)) && decide (st.tbl.names.length ≤ 8192)
-          let mpl := fill tok.toUTF8.toList ids
+          match parseHex tok with
+          | none => (st, .bad)
+          | some tokBytes =>
+          let mpl := fill tokBytes ids
           let mbytes := marshal mpl
           match parseHex impl with
           | none =>
@@ -196,8 +199,9 @@ def step (st : St) (op impl : String) : St × Verdict :=
             else if ibytes == mbytes then (st', .ok)
             else (st', .diff s!"bytes-differ-at-{firstDiff ibytes mbytes 0}")
   | ["iter"] =>
-    ({ st with it := It.start, cursor := B6.Spec.Cursor.start (st.ids.map keyNat), live := true },
-      if impl == "ok" then .ok else .diff "ok")
+    -- `NewIterator` must get past the header (token of any length) without failing
+    ({ st with it := It.start, cursor := B6.Spec.Cursor.start (st.ids.map keyNat), live := impl == "ok" },
+      if impl == "ok" then .ok else if st.inDomain then .propfail "roundtrip" else .diff "ok")
   | ["next"] =>
     let model := next st.pl st.it
     let spec := if st.inDomain && st.live then some st.cursor.next else none
